@@ -38,12 +38,21 @@ def main():
         scratch = tempfile.mkdtemp(prefix="verif-mut-", dir="/var/tmp")
         try:
             subprocess.check_call(["rsync", "-a", "--exclude", ".git", "/repo/", scratch + "/"])
-            p = os.path.join(scratch, m["file"])
-            src = open(p).read()
-            cnt = src.count(m["old"])
-            if cnt != m.get("count", 1):
-                results.append((m["id"], "STALE (old occurs %d times)" % cnt)); continue
-            open(p, "w").write(src.replace(m["old"], m["new"]))
+            if "revert_commit" in m:
+                c = m["revert_commit"]
+                diff = subprocess.check_output(["git", "-C", "/repo", "diff", c + "~1", c])
+                pr = subprocess.run(["patch", "-R", "-p1", "-s", "-d", scratch], input=diff, capture_output=True)
+                if pr.returncode != 0:
+                    results.append((m["id"], "STALE (cannot revert %s: %s)" % (c, pr.stdout.decode()[-200:])))
+                    print(results[-1][0], results[-1][1], flush=True); continue
+            else:
+                p = os.path.join(scratch, m["file"])
+                src = open(p).read()
+                cnt = src.count(m["old"])
+                if cnt != m.get("count", 1):
+                    results.append((m["id"], "STALE (old occurs %d times)" % cnt))
+                    print(results[-1][0], results[-1][1], flush=True); continue
+                open(p, "w").write(src.replace(m["old"], m["new"]))
             status = []
             if baseline:
                 rc = subprocess.call([os.path.join(HERE, "tools", "baseline.sh"), scratch], stdout=subprocess.DEVNULL)
